@@ -127,6 +127,36 @@ def build_constraints(case):
     return onp.concatenate([alpha, a.ravel(), beta, gamma, rho, z.ravel()]), xu
 
 
+def slater_margin(cvec, n, m, starts):
+    """max_x min_i c_i(x) (numpy, SLSQP on the epigraph form): > 0 iff the constraint set has an interior point.  The property
+    quantifies over constraint sets with infeasible STARTS, not over empty feasible sets: without a feasible point no KKT
+    point exists, the multipliers grow without bound and the solver's error measure eventually cancels in floating point."""
+    from scipy.optimize import minimize
+    o = 0
+    parts = []
+    for k in csizes(n, m):
+        parts.append(onp.asarray(cvec[o:o + k], dtype=float))
+        o += k
+    alpha, a, beta, gamma, rho, z = parts
+    a = a.reshape(m, n)
+    z = z.reshape(m, n)
+    scale = onp.where(alpha > 0, onp.linalg.norm(a, axis=1) + 1e-300, 2 * rho + 1e-300)
+
+    def cs(x):
+        return (alpha * (a @ x - beta) + gamma * (rho ** 2 - onp.sum((x[None, :] - z) ** 2, axis=1))) / scale
+    best = -onp.inf
+    for x0 in starts:
+        x0 = onp.asarray(x0, dtype=float)
+        y0 = onp.concatenate([x0, [cs(x0).min()]])
+        r = minimize(lambda y: -y[-1], y0, method='SLSQP', constraints=[{'type': 'ineq', 'fun': lambda y: cs(y[:-1]) - y[-1]},
+                                                                      {'type': 'ineq', 'fun': lambda y: 10.0 - y[-1]}],
+                     options={'maxiter': 200, 'ftol': 1e-12})
+        y = r.x
+        if onp.all(onp.isfinite(y)):
+            best = max(best, float(min(cs(y[:-1]).min(), y[-1])))
+    return best
+
+
 def active_set_reference(A, b, Cm, beta):
     """Strictly convex QP with linear constraints C x - beta >= 0: enumerate all active sets."""
     n, m = A.shape[0], Cm.shape[0]
@@ -164,6 +194,9 @@ def check(case):
     cvec, xu = build_constraints(case)
     cfun = make_c(n, m)
     coef = case['coef']
+    zs = [onp.asarray(cvec)[-m * n:].reshape(m, n)[i] for i in range(m)]
+    if slater_margin(cvec, n, m, [xu, onp.array(case['x0']) + xu] + zs) <= 1e-6:
+        return Result(inconclusive='empty-or-thin-feasible-set', classes=('no-interior',))
     p = Objective.Params(np.array(coef['b']), np.array(cvec), np.array(coef['design']))
     o = get_objective(n, m, s['kexp'])
     kappa0 = onp.asarray(o.constraintKappa)
